@@ -9,7 +9,7 @@ import sys
 HERE = os.path.dirname(os.path.abspath(__file__))
 VERIF = os.path.dirname(HERE)
 sys.path.insert(0, HERE)
-from mutations import MUTATIONS  # noqa: E402
+from mutations import MUTATIONS, NEUTRAL  # noqa: E402
 
 # By default the mutations are applied to /repo itself.  With SELFTEST_SCRATCH=<dir> they are applied to a scratch git worktree of
 # /repo at <dir> (created here, removed at the end) and the checks are pointed at it, so /repo stays untouched and usable meanwhile.
@@ -60,6 +60,22 @@ def main():
             results.append((name, pid, "CAUGHT" if hit else "MISSED", len(viol)))
             print("%-40s %s  %s (%d violations)%s" % (name, pid, "CAUGHT" if hit else "MISSED", len(viol),
                   "" if hit else "\n" + "\n".join(r.stdout.splitlines()[-6:])), flush=True)
+        except AssertionError as e:
+            results.append((name, pid, "STALE", 0))
+            print("%-40s %s  STALE-MUTATION %s" % (name, pid, e), flush=True)
+        finally:
+            sh("git -C %s checkout -- ." % REPO)
+    # behaviour-preserving edits: the check must stay silent
+    for name, pid, edits in NEUTRAL:
+        if sel and not any(s in name for s in sel):
+            continue
+        try:
+            apply(edits)
+            r = sh("./nvs.sh check %s" % pid, cwd=VERIF)
+            viol = [l for l in r.stdout.splitlines() if l.startswith("VIOLATION")]
+            bad = bool(viol) or r.returncode != 0
+            results.append((name, pid, "FALSE-ALARM" if bad else "CAUGHT", len(viol)))
+            print("%-40s %s  %s%s" % (name, pid, "FALSE-ALARM" if bad else "SILENT (as it must be)", "" if not bad else "\n" + "\n".join(r.stdout.splitlines()[-6:])), flush=True)
         except AssertionError as e:
             results.append((name, pid, "STALE", 0))
             print("%-40s %s  STALE-MUTATION %s" % (name, pid, e), flush=True)
